@@ -189,7 +189,7 @@ def run(prog, rep):
         prog, rep, rule="C02.R6", consequence="a line assembled from such pieces can be wider than the configured width"))
     # C06.R2: the emitted lines are exactly the runs the break rule decided; C01.R1: a line's text is its fragments
     # C10: every width in the pipeline is display_width, the measure the property is stated in
-    need = ["C04.WRAPPATH", "C10", "DISPATCH", "C07.R1", "C06.R2", "C01.R1", "C12.R6", "C12.R7", "C12.R3", "C12.R4", "C12.R9", "C11.R3", "C11.R1", "C11.R8", "C07.R4"]
+    need = ["C04.WRAPPATH", "C10", "DISPATCH", "C07.R1", "C06.R2", "C01.R1", "C12.R5", "C12.R6", "C12.R7", "C12.R8", "C12.R3", "C12.R4", "C12.R9", "C11.R3", "C11.R1", "C11.R8", "C07.R4"]
     from .common import has_feature
     if has_feature(prog, "unicode-linebreak"):
         need += ["C11.R2", "C11.R5", "C11.R6"]
